@@ -517,6 +517,18 @@ C["C36"] = {
  "stubs": SRV_STUBS + LIVE, "trusted_base": SRV_TB,
 }
 
+# ---------------- C33 (data races) ----------------
+C["C33"] = {
+ "pkgs": [".", "./listeners", "./mempool"],
+ "technique": "happens-before (vector clock) race analysis over bounded symbolic execution of concurrent scenarios: the real connection handlers, WriteLoops, housekeeping rounds and inline API calls run as interpreted goroutines; every load/store of interpreted memory is recorded, every synchronisation operation (go, Mutex/RWMutex, sync/atomic, channels, WaitGroup, Once, Pool, context) transfers clocks; scenario choice, inputs and goroutine switches are engine decisions whose feasibility the solver decides; a race is two conflicting accesses on a feasible path that no happens-before chain orders, replayed natively under the Go race detector",
+ "quick": {"harnesses": [H("VerifC33SelfTest", pkg="./mempool", RACE_HARNESS=1), H("VerifC33Pair", ACTS=2, PRE=0, SCH=1, PERM=1)], "budget_s": 900, "witnesses": 2, "perm_limit": 1, "race_check": True,
+   "bounds": "control: a race planted in the harness's own code must be found (and the mutex- and channel-ordered accesses next to it must not); scenario: clients a (delayed will) and b (persistent subscriber), protocol 4/5 each, pre-state {b holds an unacknowledged message and a retained message exists} x {a offline with its delayed will pending}; then every pair of distinct activities among {a publishes QoS 1 retained, b acknowledges, b subscribes, b unsubscribes, a disconnects, a's connection is lost, takeover of b, a connects again, housekeeping round with everything expired, housekeeping round now, inline Publish, inline Subscribe+Unsubscribe, Server.Close} started together; cooperative scheduling with at most one non-default choice among runnable goroutines"},
+ "thorough": {"harnesses": [H("VerifC33SelfTest", pkg="./mempool", RACE_HARNESS=1), H("VerifC33Pair", ACTS=2, PRE=1, SCH=1, PERM=1), H("VerifC33Pair", ACTS=3, PRE=0, SCH=1, PERM=1)], "budget_s": 10000, "witnesses": 2, "perm_limit": 1, "race_check": True,
+   "bounds": "as quick with one pre-emption at a synchronisation operation (pairs), and triples of activities under cooperative scheduling"},
+ "outside_bounds": ["a happens-before analysis sees the races of the schedules it explores: a race that needs more pre-emptions, other activities or other pre-states is not reported (bug-finding strength within the bound, not a proof of race freedom)", "accesses inside engine-stubbed code (net.Conn, bufio, time, slog, storage engines) and element accesses made through the copy/append built-ins are not recorded", "memory-model effects below sequential consistency", "listeners' accept loops (as for C36)"],
+ "stubs": SRV_STUBS + LIVE, "trusted_base": SRV_TB + ["engine/race.go: vector-clock happens-before model (over-approximates ordering where unsure: it may miss a race, it does not invent one)"],
+}
+
 def main():
     os.makedirs(os.path.join(root, "checks"), exist_ok=True)
     for cid, c in C.items():
